@@ -1,4 +1,4 @@
-//! C10: cache. script = [policy (0 LRU,1 LFU,2 FIFO), max_size, ttl (-1 none), sh,
+//! C10: cache. script = [policy (0 LRU,1 LFU,2 FIFO), max_size (2^64-1 = usize::MAX, 2^63-1 = usize::MAX/2), ttl (-1 none), sh,
 //!   n callers, m events, (op a b)*m, (oracle*m: ignored here, read by the model)]
 //!   sh mod 4: 0 private (CacheLayer), 1 SharedCacheLayer::builder, 2|3 CacheLayer::shared();
 //!   (sh / 4) odd: ttl is in fine units, otherwise in milliseconds; (sh / 8) odd: the fine unit is the
@@ -129,7 +129,13 @@ fn run(s: &[i128]) -> Vec<i128> {
         2 => EvictionPolicy::Fifo,
         _ => EvictionPolicy::Lru,
     };
-    let max_size = zn(s, 1).max(0) as usize;
+    // only usize::MAX and usize::MAX/2 are ever driven above 2^26 (anything between would make a store that
+    // pre-allocates max_size entries reserve gigabytes or abort the process); other large values read as usize::MAX
+    let max_size = match zn(s, 1).max(0) {
+        v if v <= (1 << 26) => v as usize,
+        v if v == (usize::MAX / 2) as i128 => usize::MAX / 2,
+        _ => usize::MAX,
+    };
     let ttl = zn(s, 2);
     let shared = zn(s, 3).rem_euclid(4);
     let ttl_fine = zn(s, 3).div_euclid(4).rem_euclid(2) == 1;
